@@ -99,6 +99,7 @@ impl BfsEngine {
                     }
                 }
                 let _ = pi;
+                crate::campaign::touch();
                 for (ci, call) in uni.iter().enumerate() {
                     let mut r = replay(path, &uni);
                     if !r.valid(call) {
@@ -130,6 +131,7 @@ impl BfsEngine {
             if i % self.drain_every != 0 {
                 continue;
             }
+            crate::campaign::touch();
             let mut r = replay(path, &uni);
             let mut ep = Epilogue::new(&r.m, (i & 0xffff) as u16);
             let mut calls: Vec<Call> = path.iter().map(|i| uni[*i as usize].clone()).collect();
